@@ -5,6 +5,25 @@ import os, json, math
 import vf
 
 LEVEL = "proof"
+CLAIM = dict(cat="proof", design="§3 C16",
+   text="PROVED in Coq (34 theorems, no axioms) for literal integer models on exact (dyadic / lattice) arithmetic: AMR keys and tree (AMRGridCell / AMRGrid): for every "
+        "tree = every refinement history (C16_amr_trees_are_histories) and every block count 1..1024 per axis (odd ones included) get_first_key / get_next_key "
+        "enumerate every single cell exactly once in depth first order and end with the sentinel, get_key(position) returns the key of the one cell whose box "
+        "contains the position, operator[] inverts it, volumes sum to the box volume, refine_cell replaces exactly one cell by its 8 children, keys stay below "
+        "2^31 / 2^62 up to depth 10 (the limit of the 32 bit cell key); Morton 21-bit interleave is injective (explicit inverse) and < 2^63; Cartesian long "
+        "index <-> (ix,iy,iz) bijection, enumeration, containing cell, volumes, mutual neighbours with periodic wrap, is_inside wrap. Tie: extracted models vs "
+        "the real classes on every run (keys in enumeration order, levels, boxes, volumes, midpoint keys, position keys incl. cell faces, refine keys, index maps, "
+        "neighbour lists, wraps; doubles as bit patterns). CORRESPONDENCE ONLY (exploration evidence, not proved): Octree overlap / closest searches and "
+        "PointLocations closest / radius searches vs brute force, AMRGrid::set_ngbs neighbour pointers vs a geometric oracle. EXCLUDED: Voronoi grids, the legacy "
+        "photon traversal (CartesianDensityGrid / AMRDensityGrid::interact: path length / optical depth / absorbed-escaped clauses).",
+   note="Positions are lattice points at least as fine as the deepest cell; the correspondence runs on dyadic boxes where every binary64 operation of the code is exact. "
+        "Outside that (non-dyadic boxes, positions within an ulp of a face) the real code has defects that the check exhibits by default with concrete replays: "
+        "pointlocations_face_ulp (generalngbiterator indexes _grid[n]: segfault), amr_face_ulp (child index 2 -> _children[8], block index n), "
+        "cartesian_face_ulp (get_cell_indices returns n), octree_single_position (root leaf: uninitialised _child, search misses the only point); minimal patches "
+        "in hooks/c16_fix_*.patch. Ulp-level ties where the stored box of the returned cell misses the position by one ulp remain (no consistent-arithmetic fix). "
+        "AMRDensityGrid::get_largest_odd_factor(0) does not terminate (invalid input, noted only). Search structures: only the abstract pruning-soundness theorem "
+        "C16_search_pruning_partial and a one-axis distance lemma are proved.",
+   technique="Coq proofs over Z by induction on the tree / refinement history + extraction + differential correspondence; brute-force oracles for the search structures")
 LAT = 10          # lattice bits per AMR block side
 CLAT = 16         # lattice units per Cartesian cell side
 MAXDEPTH = 8
@@ -243,10 +262,8 @@ def gen_locations(rng, idx, quick):
     for q in range(12 if quick else 40):
         c = [rng.uniform() for _ in range(3)]
         if q % 4 == 3:
-            # FACE_ULP: a query within one ulp of the upper box face makes generalngbiterator index _grid out of
-            # bounds when the cell count per axis is not a power of two (finding, see the report); opt-in only
-            top = 1.0 - 2.0 ** -53 if os.environ.get("C16_FACE_ULP") else 1.0 - 2.0 ** -20
-            c = [0.0, 0.0, 0.0] if rng.below(2) else [top] * 3
+            # not the last ulp below the face: that is the defect pointlocations_face_ulp, exhibited by probe_defects
+            c = [0.0, 0.0, 0.0] if rng.below(2) else [1.0 - 2.0 ** -20] * 3
         lines.append("QP %s %s %s" % (hexd(c[0]), hexd(c[1]), hexd(c[2])))
         r = [0.01, 0.1, 0.5, 2.0][rng.below(4)] * (0.5 + rng.uniform())
         lines.append("QR %d %s" % (rng.below(n), hexd(r)))
@@ -526,9 +543,172 @@ def oracle_search(ops, outs):
     return None
 
 
-ORACLES = {"G": oracle_amr, "Z": oracle_morton, "C": oracle_cart, "OT": oracle_search, "PL": oracle_search, "GN": oracle_amr_ngb}
+
+# ---------------------------------------------------------------------------------------------------------------
+# defects of the real code outside the exact-arithmetic domain of the theorems.  Every probe case runs in its own
+# child process (a segfault / abort only ends that case); each defect is reported once, with a minimal replay.
+def inside(p, a, s):
+    return all(a[k] <= p[k] < a[k] + s[k] for k in range(3))
+
+
+def face_candidates(a, side, cells):
+    """positions on and within two ulps of the faces of a row of `cells` cells along x"""
+    out = []
+    for i in range(cells + 1):
+        f = a + (side / cells) * i
+        d1 = math.nextafter(f, -math.inf)
+        out += [f, d1, math.nextafter(d1, -math.inf), math.nextafter(f, math.inf)]
+    return out
+
+
+NONDYADIC = [(-1.3, 3.7), (5.0, 0.3), (0.0, 1.0), (-7.25e3, 1.1e4)]
+
+
+def oracle_pl_face(ops, outs):
+    return oracle_search(ops, outs)
+
+
+def oracle_amr_face(ops, outs):
+    keys = None
+    for op, o in zip(ops, outs):
+        if o is None:
+            return "no answer to %r (the real code stopped)" % op
+        f = op.split()
+        if f[0] == "E":
+            keys = set(int(c.split()[1]) for c in o[1:-1])
+            if len(keys) != int(o[0].split()[1]):
+                return "enumeration repeats keys"
+        elif f[0] == "KD":
+            k = int(o[0].split()[1])
+            if keys is not None and k not in keys:
+                ck_ = k & 0xffffffff
+                lev = 0
+                while (ck_ >> (3 * lev)) > 1:
+                    lev += 1
+                return ("get_key(position) for a position inside the half open box returns %d (block %d,%d,%d, cell part %d with its marker on level %d), "
+                        "which is not the key of a cell of the grid" % (k, (k >> 52) & 1023, (k >> 42) & 1023, (k >> 32) & 1023, ck_, lev))
+    return None
+
+
+def oracle_cart_face(ops, outs):
+    n = None
+    for op, o in zip(ops, outs):
+        if o is None:
+            return "no answer to %r (the real code stopped)" % op
+        f = op.split()
+        if f[0] == "CA":
+            n = [int(f[1]), int(f[2]), int(f[3])]
+        elif f[0] == "PD":
+            t = o[0].split()
+            idx = [int(t[1]), int(t[2]), int(t[3])]
+            if not all(0 <= idx[k] < n[k] for k in range(3)):
+                return "get_cell_indices maps a position inside the half open box to indices %r of a %dx%dx%d grid (cell index %s)" % (idx, n[0], n[1], n[2], t[4])
+    return None
+
+
+def probe_cases(quick):
+    """(kind key, oracle kind, list of cases); a case = list of ops"""
+    res = {}
+    # PointLocations: unit box, cells per axis 3,5,6,7 (and 4: must pass), query one ulp below the upper faces
+    top = 1.0 - 2.0 ** -53
+    pl = []
+    for n, seed in ((300, 16), (27, 17), (125, 18), (216, 19), (343, 20), (64, 21)):
+        r = vf.SplitMix64(seed)
+        npc = 10 if n == 300 else 1
+        pts = ["p %s %s %s 0" % (hexd(r.uniform()), hexd(r.uniform()), hexd(r.uniform())) for _ in range(n)]
+        for q in ((top, 0.5, 0.5), (0.5, top, 0.5), (0.5, 0.5, top), (top, top, top)):
+            pl.append((["PL %d %d" % (n, npc)] + pts + ["QP %s %s %s" % tuple(hexd(x) for x in q)],
+                       {"box": "[0,1)^3", "points": "SplitMix64(%d).uniform() x 3 per point" % seed, "count": n, "per_cell": npc,
+                        "query_bits": [hexd(x) for x in q]}))
+    res["pointlocations_face_ulp"] = ("PLF", pl)
+    # AMR: non dyadic boxes, uniform depth 3, positions on / next to the faces of the finest cells
+    amr = []
+    for (a, side) in NONDYADIC:
+        for n in ((1, 3, 6, 7) if quick else range(1, 8)):
+            box = "%s %s %s %s %s %s" % (hexd(a), hexd(a), hexd(a), hexd(side), hexd(side), hexd(side))
+            head = ["GA %d 1 1 3 %s" % (n, box), "E"]
+            for p in face_candidates(a, side, n * 8):
+                if a <= p < a + side:
+                    amr.append((head + ["KD %s %s %s" % (hexd(p), hexd(a), hexd(a))],
+                                {"box_anchor": a, "box_side": side, "blocks": [n, 1, 1], "depth": 3, "position": [p, a, a]}))
+    res["amr_face_ulp"] = ("GA", amr)
+    cart = []
+    for (a, side) in NONDYADIC:
+        for n in ((1, 3, 5, 10, 37, 64) if quick else range(1, 65)):
+            box = "%s %s %s %s %s %s" % (hexd(a), hexd(a), hexd(a), hexd(side), hexd(side), hexd(side))
+            for p in face_candidates(a, side, n):
+                if a <= p < a + side:
+                    cart.append((["CA %d 1 1 %s" % (n, box), "PD %s %s %s" % (hexd(p), hexd(a), hexd(a))],
+                                 {"box_anchor": a, "box_side": side, "cells": [n, 1, 1], "position": [p, a, a]}))
+    res["cartesian_face_ulp"] = ("CA", cart)
+    one = ["OT 1 0", "p %s %s %s %s" % (hexd(0.5), hexd(0.5), hexd(0.5), hexd(0.25)),
+           "Q %s %s %s 0" % (hexd(0.5), hexd(0.5), hexd(0.75)), "Q %s %s %s %s" % (hexd(0.5), hexd(0.5), hexd(0.875), hexd(0.125)),
+           "QC %s %s %s" % (hexd(0.1), hexd(0.2), hexd(0.3))]
+    res["octree_single_position"] = ("OT", [(one, {"positions": [[0.5, 0.5, 0.5]], "h": 0.25})])
+    return res
+
+
+def run_grouped(ck, group, valgrind=False):
+    """several probe cases that share their first line(s) are run in one child process each group; returns outs per case"""
+    exe = [os.path.join(ck.scratch, "impl")]
+    if valgrind:
+        exe = ["valgrind", "-q", "--error-exitcode=9"] + exe
+    rc, out = vf.run_lines(exe, "\n".join(group) + "\n", timeout=300)
+    return rc, out
+
+
+def probe_defects(ck):
+    cov = ck.coverage
+    summary = {}
+    for key, (okind, plist) in probe_cases(ck.quick).items():
+        oracle = ORACLES[okind]
+        # cases with the same set-up lines share one process: set-up once, then the queries; on a failure the
+        # failing query is re-run alone (set-up + that query) to get the minimal replay
+        groups = {}
+        for ops, meta in plist:
+            nset = max(i for i, l in enumerate(ops) if l.split()[0] not in ("QP", "KD", "PD", "Q", "QC")) + 1 if okind != "OT" else 2
+            groups.setdefault(tuple(ops[:nset]), []).append((ops[nset:], meta))
+        nrun = nfail = 0
+        first = None
+        for setup, qs in groups.items():
+            allq = [q for qq, _ in qs for q in qq]
+            ops = list(setup) + allq
+            rc, out = run_grouped(ck, ops)
+            why = oracle(ops, split_outputs(ops, out))
+            nrun += len(allq)
+            if why is None:
+                continue
+            for qq, meta in qs:                      # locate: each query alone in its own process
+                ops1 = list(setup) + qq
+                rc1, out1 = run_grouped(ck, ops1)
+                why1 = oracle(ops1, split_outputs(ops1, out1))
+                if why1:
+                    nfail += 1
+                    # prefer a wrong answer over a crash as the exhibited input (both count)
+                    if first is None or (first[2].startswith("no answer") and not why1.startswith("no answer")):
+                        first = (ops1, out1, why1, meta, rc1)
+        vg = None
+        if key == "octree_single_position" and not ck.quick:
+            ops1 = plist[0][0]
+            rcv, outv = run_grouped(ck, ops1, valgrind=True)
+            vg = rcv
+            if rcv == 9 and first is None:
+                first = (ops1, outv, "valgrind: a search on an Octree with one position depends on an uninitialised value (OctreeNode::_child of the root leaf)", plist[0][1], rcv)
+                nfail += 1
+        summary[key] = {"probes": nrun, "failing": nfail}
+        if vg is not None:
+            summary[key]["valgrind_exit"] = vg
+        if first is not None:
+            ops1, out1, why1, meta, rc1 = first
+            ck.violation("C16 defect %s on the real code (%d of %d probes fail; child exit code %s): %s" % (key, nfail, nrun, rc1, why1),
+                         {"kind": okind, "ops": ops1, "impl_out": out1[:20], "failing_clause": why1, "input": meta, "valgrind": bool(vg == 9)},
+                         key={"kind": key})
+    cov["defect_probes"] = summary
+
+ORACLES = {"G": oracle_amr, "Z": oracle_morton, "C": oracle_cart, "OT": oracle_search, "PL": oracle_search, "GN": oracle_amr_ngb,
+           "PLF": oracle_pl_face, "GA": oracle_amr_face, "CA": oracle_cart_face}
 NAMES = {"G": "AMRGrid", "Z": "MortonKeyGenerator", "C": "CartesianDensityGrid", "OT": "Octree", "PL": "PointLocations",
-         "GN": "AMRGrid neighbour pointers"}
+         "GN": "AMRGrid neighbour pointers", "PLF": "PointLocations", "GA": "AMRGrid", "CA": "CartesianDensityGrid"}
 
 
 # ---------------------------------------------------------------------------------------------------------------
@@ -705,6 +885,7 @@ def run(ck):
     g0 = next(ci for ci, c in enumerate(cases) if c[0] == "G" and c[2]["nref"] >= 2)
     b, e = spans[g0]
     cov["samples"] = [{"ops": cases[g0][1][:6], "impl_out": [x for o in per_i[b:b + 6] if o for x in o][:8]}]
+    probe_defects(ck)
     ck.assumptions += [
         "PROVED for the models (all trees = all refinement histories, all block counts 1..1024, all lattice positions): AMR key enumeration, "
         "position->key, key->cell, disjointness, volumes, refine, key widths (depth <= 10 = the deepest level the 32 bit cell key supports); "
@@ -721,7 +902,9 @@ def run(ck):
         "level neighbours point back) are checked by a geometric oracle on the real code's output, not modelled in Coq",
         "NOT COVERED: Voronoi grids (C15 not applicable), the legacy photon traversal "
         "CartesianDensityGrid::interact / AMRDensityGrid::interact (path / optical depth clauses of C16), AMRGrid::get_key(level, position), "
-        "create_cell on partially built trees, Octree with fewer than 2 points",
+        "create_cell on partially built trees",
+        "defect probes (default on, each in a child process): pointlocations_face_ulp, amr_face_ulp, cartesian_face_ulp, octree_single_position; "
+        "AMRDensityGrid::get_largest_odd_factor(0) loops forever (invalid input, noted only)",
     ]
     ck.resolve_breaks_without_input()
 
@@ -733,6 +916,11 @@ def replay(ck, rp):
         print("REPLAY: nothing to run")
         return 1 if not ok3 else 0
     ops = r["ops"]
+    if r.get("valgrind"):
+        rc, out = run_grouped(ck, ops, valgrind=True)
+        if rc == 9:
+            print("REPLAY: valgrind reports a use of an uninitialised value")
+            return 1
     rc, out = run_impl(ck, ops)
     outs = split_outputs(ops, out)
     why = ORACLES[r["kind"]](ops, outs)
